@@ -154,6 +154,8 @@ func genC02(w *World, res *CheckResult) {
 			switch op.op {
 			case "+", "-", "*", "/":
 				st.Store(LocField(bn, 2), Fresh("bintype", SInt))
+			case "**":
+				st.Store(LocField(bn, 2), typeCodeTerm(types.Typ[types.Float64])) // the checker types ** as float64
 			default:
 				st.Store(LocField(bn, 2), lt.code)
 			}
@@ -206,6 +208,10 @@ func genC02(w *World, res *CheckResult) {
 					folded = pv
 				} else if o.St.Simp(isFloat) == True {
 					folded = VCtor("VF64", o.St.Load(LocField(np, lay.off("FloatNode", "Value")), SF64))
+					// a float literal is a float64 at run time: its static type says so too (later passes key on it)
+					ft := o.St.Load(LocField(np, 2), SInt)
+					e.AddVC(cell+"/post:type-agrees", "post", foldFn.String(), o.St, Not(Or(Eq(ft, IntLit(0)), Eq(rtKind(ft), BV64(14)), Eq(rtKind(ft), BV64(20)))),
+						"a folded float literal carries a float64 (or no / an interface) static type")
 				}
 				for _, u := range unopt {
 					s2 := o.St.Clone()
